@@ -1481,3 +1481,161 @@ Section Adoption.
   Lemma as_owner_same m1 m0 : same_spec m1 m0 -> os_revision m1 = os_revision m0 -> as_owner m1 = as_owner m0.
   Proof. intros (Hid & _ & Hl & _ & Hp & _) Hr. unfold as_owner. now rewrite Hid, Hr, Hl, Hp. Qed.
 End Adoption.
+
+(** * 15. isObjectSetInTransition, literally: when InTransition is cleared every listed key is in controllerOf, provided
+    the namespace-less references that phase objects report name no OTHER listed key (C06) *)
+Section Literal.
+  Variable force : bool.
+  Local Notation c := (Build_cfg FObjectSet force).
+
+  Lemma rec_objs_actual_nodup ow prev ps : forall w acc failed w' evs a f,
+    reconcile_objects c idw w ow prev ps acc failed = (w', evs, PhOk a f) ->
+    NoDup (map (key_of ow) ps) ->
+    exists new, a = acc ++ new /\ NoDup (map fst new) /\ incl (map fst new) (map (key_of ow) ps).
+  Proof.
+    induction ps as [|p ps IH]; intros w acc failed w' evs a f H Hnd; cbn in H.
+    - injection H as _ _ <- _. exists []. split; [now rewrite app_nil_r|]. split; [constructor|intros x []].
+    - inversion Hnd as [|? ? Hnotin Hnd']; subst.
+      destruct (reconcile_object c idw w ow prev p) as [[w1 e1] r1] eqn:E1.
+      destruct r1 as [o| |e]; [| |discriminate].
+      + destruct (reconcile_objects c idw w1 ow prev ps _ _) as [[w2 e2] r2] eqn:E2. injection H as _ _ ->.
+        destruct (IH _ _ _ _ _ _ _ E2 Hnd') as (new & -> & Hn & Hi).
+        exists ((key_of ow p, o) :: new). split; [now rewrite <- app_assoc|]. split.
+        * cbn. constructor; [|exact Hn]. intros Hin. apply Hnotin. now apply Hi.
+        * intros x [<-|Hx]; [now left|right; now apply Hi].
+      + destruct (reconcile_objects c idw w1 ow prev ps _ _) as [[w2 e2] r2] eqn:E2. injection H as _ _ ->.
+        destruct (IH _ _ _ _ _ _ _ E2 Hnd') as (new & -> & Hn & Hi).
+        exists new. split; [reflexivity|]. split; [exact Hn|]. intros x Hx. right. now apply Hi.
+  Qed.
+
+  Lemma nodup_map_fst_filter {A B} (g : A * B -> bool) (l : list (A * B)) : NoDup (map fst l) -> NoDup (map fst (filter g l)).
+  Proof.
+    induction l as [|x l IH]; cbn; intros H; [constructor|]. inversion H as [|? ? Hn Hd]; subst.
+    destruct (g x); cbn; [|now apply IH]. constructor; [|now apply IH].
+    intros Hin. apply Hn. apply in_map_iff in Hin. destruct Hin as (y & Hy & Hf). apply filter_In in Hf. apply in_map_iff. exists y. tauto.
+  Qed.
+
+  Lemma count_occ_nodup (l : list okey) k : NoDup l -> In k l -> count_occ okey_dec l k = 1%nat.
+  Proof.
+    intros Hnd Hin. apply NoDup_count_occ with (decA := okey_dec) (x := k) in Hnd.
+    apply (count_occ_In okey_dec) in Hin. lia.
+  Qed.
+
+  (** every entry of the controllerOf list is reported by a phase object the pass leaves, or is a local key that occurs
+      in the list exactly once *)
+  Lemma rpm_ctrlof_once s ow prev phs : forall sw acc rem sw' evs rem' ctrlof fph,
+    reconcile_phases_m force sw s ow prev phs acc rem = (sw', evs, rem', MOk ctrlof fph) ->
+    NoDup (local_keys ow phs) ->
+    exists new, ctrlof = acc ++ new /\
+      Forall (fun k => reported_final sw' s phs evs k \/ (In k (local_keys ow phs) /\ count_occ okey_dec new k = 1%nat)) new.
+  Proof.
+    induction phs as [|ph rest IH]; intros sw acc rem sw' evs rem' ctrlof fph H Hnd.
+    - cbn in H. injection H as <- _ _ <- _. exists []. split; [now rewrite app_nil_r|constructor].
+    - assert (Hlift : forall evs1 evs2 k, reported_final sw' s rest evs2 k -> reported_final sw' s (ph :: rest) (evs1 ++ evs2) k).
+      { intros evs1 evs2 k (q & cu & Hq & Hc & Hf & Ho & Hk & Hr). exists q, cu. split; [now right|]. repeat split; auto. now apply read_in_app_r. }
+      rewrite rpm_cons in H. destruct (ph_class ph) eqn:Ecl.
+      + rewrite (local_keys_cons_remote _ _ _ Ecl) in *.
+        destruct (remote_reconcile sw s ph rem) as [[[sw1 e1] rem1] r1] eqn:E1.
+        destruct (remote_reconcile_inv _ _ _ _ _ _ _ _ E1) as (_ & _ & _ & _ & _ & Hres).
+        destruct r1 as [|active failed]; [discriminate|].
+        destruct (remote_step_ok _ _ _ _ _ _ _ _ _ E1) as (cur & Hcur & Hrel & Hown & Hsync).
+        pose proof (relay_active _ _ _ Hrel) as ->.
+        assert (Hread : read_in e1 (pobj_name s ph)).
+        { destruct Hres as (c0 & _ & _ & [Hg|(pa & Hg)]); [left; eauto|right; eauto]. }
+        assert (Hrep : forall evsf k, phase_obj_of sw' s ph = Some cur -> read_in evsf (pobj_name s ph) -> In k (op_ctrlof cur) ->
+                  reported_final sw' s (ph :: rest) evsf k).
+        { intros evsf k Hf Hr Hk. exists ph, cur. split; [now left|]. auto. }
+        destruct failed.
+        * injection H as <- <- _ <- _. exists (op_ctrlof cur). split; [reflexivity|].
+          apply Forall_forall. intros k Hk. left. now apply Hrep.
+        * destruct (reconcile_phases_m force sw1 s ow prev rest (acc ++ op_ctrlof cur) rem1) as [[[sw2 e2] rem2] r2] eqn:E2.
+          injection H as <- <- _ ->.
+          destruct (IH _ _ _ _ _ _ _ _ E2 Hnd) as (new & -> & Hnew).
+          assert (Hkeep : phase_obj_of sw2 s ph = Some cur) by (unfold phase_obj_of in *; eapply rpm_keeps; eauto).
+          exists (op_ctrlof cur ++ new). split; [now rewrite app_assoc|]. apply Forall_app. split.
+          -- apply Forall_forall. intros k Hk. left. apply Hrep; [exact Hkeep|now apply read_in_app_l|exact Hk].
+          -- rewrite Forall_forall in Hnew. apply Forall_forall. intros k Hk. destruct (Hnew k Hk) as [Hr|[Hl Hc]]; [left; now apply Hlift|].
+             destruct (in_dec okey_dec k (op_ctrlof cur)) as [Hi|Hi]; [left; apply Hrep; [exact Hkeep|now apply read_in_app_l|exact Hi]|].
+             right. split; [exact Hl|]. rewrite count_occ_app, Hc. apply (count_occ_not_In okey_dec) in Hi. lia.
+      + rewrite (local_keys_cons_local _ _ _ Ecl) in *.
+        pose proof (NoDup_app_r _ _ Hnd) as Hnd_rest. pose proof (NoDup_app_l _ _ Hnd) as Hnd0.
+        destruct (reconcile_phase c idw (sw_w sw) ow prev false (ph_objects ph)) as [[w1 e1] r1] eqn:E1.
+        destruct r1 as [e|vs|actual failed]; [discriminate|discriminate|].
+        pose proof E1 as E1'. unfold reconcile_phase in E1'. destruct (flat_map _ (ph_objects ph)); [|discriminate].
+        destruct (rec_objs_actual_nodup ow prev _ _ _ _ _ _ _ _ E1' Hnd0) as (newa & Ha & Hndn & Hincl). cbn in Ha. subst actual.
+        set (mine := map fst (filter (fun ko => is_controller Native (ow_id ow) (snd ko)) newa)) in *.
+        assert (Hmnd : NoDup mine) by (apply nodup_map_fst_filter; exact Hndn).
+        assert (Hmin : forall k, In k mine -> In k (phase_keys ow ph)).
+        { intros k Hk. apply Hincl. unfold mine in Hk. apply in_map_iff in Hk. destruct Hk as (y & <- & Hy). apply filter_In in Hy. apply in_map. tauto. }
+        destruct failed as [|f fs].
+        * cbv zeta in H.
+          match type of H with context [reconcile_phases_m force ?a s ow prev ?l ?b ?d] =>
+            destruct (reconcile_phases_m force a s ow prev l b d) as [[[sw2 e2] rem2] r2] eqn:E2 end.
+          injection H as <- <- _ ->.
+          destruct (IH _ _ _ _ _ _ _ _ E2 Hnd_rest) as (new & -> & Hnew). rewrite Forall_forall in Hnew.
+          exists (mine ++ new). split; [now rewrite app_assoc|]. apply Forall_app. split.
+          -- apply Forall_forall. intros k Hk.
+             destruct (in_dec okey_dec k new) as [Hi|Hi].
+             ++ destruct (Hnew k Hi) as [Hr|[Hl _]]; [left; now apply Hlift|].
+                exfalso. eapply NoDup_app_disj; [exact Hnd|apply Hmin; exact Hk|exact Hl].
+             ++ right. split; [apply in_or_app; left; now apply Hmin|].
+                rewrite count_occ_app, (count_occ_nodup _ _ Hmnd Hk). apply (count_occ_not_In okey_dec) in Hi. lia.
+          -- apply Forall_forall. intros k Hk. destruct (Hnew k Hk) as [Hr|[Hl Hc]]; [left; now apply Hlift|].
+             right. split; [apply in_or_app; now right|]. rewrite count_occ_app, Hc.
+             assert (Hni : ~ In k mine) by (intros Hi; eapply NoDup_app_disj; [exact Hnd|apply Hmin; exact Hi|exact Hl]).
+             apply (count_occ_not_In okey_dec) in Hni. lia.
+        * injection H as <- <- _ <- _. exists mine. split; [reflexivity|]. apply Forall_forall. intros k Hk.
+          right. split; [apply in_or_app; left; now apply Hmin|now apply count_occ_nodup].
+  Qed.
+
+  Lemma remove_first_gkname_none x l : (forall y, In y l -> ~ (k_gk y = k_gk x /\ k_name y = k_name x)) -> remove_first_gkname x l = l.
+  Proof.
+    induction l as [|y l IH]; intros H; [reflexivity|]. cbn.
+    destruct ((k_gk y =? k_gk x) && (k_name y =? k_name x)) eqn:E.
+    - exfalso. apply andb_true_iff in E. destruct E as [E1 E2]. apply N.eqb_eq in E1, E2. apply (H y); [now left|auto].
+    - f_equal. apply IH. intros z Hz. apply H. now right.
+  Qed.
+
+  (** a key that names no other key of [all] when its namespace is ignored *)
+  Definition good_ref (all : list okey) (x : okey) : Prop :=
+    forall k, In k all -> k_gk k = k_gk x -> k_name k = k_name x -> k = x.
+
+  Lemma fold_remove_literal all : forall rest processed acc,
+    incl acc all ->
+    (forall k, In k all -> ~ In k acc -> In k processed) ->
+    (forall x, In x rest -> k_ns x = 0 -> good_ref all x \/ (In x all /\ count_occ okey_dec (processed ++ rest) x = 1%nat)) ->
+    fold_left remove_ctrl rest acc = [] -> forall k, In k all -> In k (processed ++ rest).
+  Proof.
+    induction rest as [|x rest IH]; intros processed acc Hincl Hinv Hent Hfold k Hk.
+    - cbn in Hfold. subst acc. rewrite app_nil_r. apply Hinv; auto.
+    - cbn [fold_left] in Hfold.
+      assert (Hstep : forall k0, In k0 acc -> k0 <> x -> In k0 (remove_ctrl acc x)).
+      { intros k0 Hk0 Hne. unfold remove_ctrl. destruct (existsb (okey_eqb x) acc) eqn:Ex.
+        - unfold remove_all_key. apply filter_In. split; [exact Hk0|]. apply negb_true_iff. now apply okey_eqb_neq.
+        - destruct (k_ns x =? 0) eqn:Ens; [|exact Hk0]. apply N.eqb_eq in Ens.
+          assert (Hxa : ~ In x acc).
+          { intros Hx. assert (existsb (okey_eqb x) acc = true) by (apply existsb_exists; exists x; split; [exact Hx|apply okey_eqb_refl]). congruence. }
+          rewrite remove_first_gkname_none; [exact Hk0|]. intros y Hy [Hg Hn].
+          destruct (Hent x (or_introl eq_refl) Ens) as [Hgood|[Hxall Hcnt]].
+          + assert (y = x) by (apply Hgood; auto). subst y. contradiction.
+          + pose proof (Hinv x Hxall Hxa) as Hxp. rewrite count_occ_app in Hcnt. cbn in Hcnt.
+            destruct (okey_dec x x) as [_|Hn']; [|contradiction]. apply (count_occ_In okey_dec) in Hxp. lia. }
+      assert (Hsub : incl (remove_ctrl acc x) acc).
+      { intros y Hy. unfold remove_ctrl in Hy. destruct (existsb (okey_eqb x) acc).
+        - unfold remove_all_key in Hy. apply filter_In in Hy. tauto.
+        - destruct (k_ns x =? 0); [|exact Hy]. clear -Hy. induction acc as [|a acc IHa]; [contradiction|]. cbn in Hy.
+          destruct ((k_gk a =? k_gk x) && (k_name a =? k_name x)); [now right|]. destruct Hy as [<-|Hy]; [now left|right; now apply IHa]. }
+      replace (processed ++ x :: rest) with ((processed ++ [x]) ++ rest) by (now rewrite <- app_assoc).
+      apply (IH (processed ++ [x]) (remove_ctrl acc x)); auto.
+      + intros y Hy. apply Hincl. now apply Hsub.
+      + intros k0 Hk0 Hn0. apply in_or_app. destruct (okey_dec k0 x) as [->|Hne]; [right; now left|left].
+        apply Hinv; [exact Hk0|]. intros Hin. apply Hn0. now apply Hstep.
+      + intros y Hy Hns. rewrite <- app_assoc. cbn [app]. apply Hent; [now right|exact Hns].
+  Qed.
+
+  Lemma dedup_keys_incl l k : In k (dedup_keys l) -> In k l.
+  Proof.
+    induction l as [|x xs IH]; cbn; [auto|]. destruct (existsb (okey_eqb x) xs); [intros H; right; now apply IH|].
+    intros [<-|H]; [now left|right; now apply IH].
+  Qed.
+End Literal.
